@@ -1168,3 +1168,127 @@ Proof.
   intros Hp HS HT. apply (resolve_rejects_l true). apply Exists_exists. exists pat. split; [assumption|].
   right; right. exists chain. split; [assumption|]. now apply Bad_nondir.
 Qed.
+
+(* ---------- LoadDirectives over several files ---------- *)
+Section FoldResP.
+  Context {X M : Type} (step : X -> M -> res M).
+  Hypothesis indep : forall x m m' e, step x m = Err e -> step x m' = Err e.
+
+  Lemma fold_res_indep xs : forall m m' e, fold_res step xs m = Err e -> fold_res step xs m' = Err e.
+  Proof.
+    induction xs as [|x xs IH]; intros m m' e; cbn [fold_res]; [discriminate|].
+    destruct (step x m) as [m1|e1] eqn:E1; destruct (step x m') as [m2|e2] eqn:E2.
+    - apply IH.
+    - apply (indep x m' m) in E2. congruence.
+    - apply (indep x m m') in E1. congruence.
+    - apply (indep x m m') in E1. congruence.
+  Qed.
+
+  Lemma fold_res_err_iff xs m0 : forall m,
+    (exists e, fold_res step xs m = Err e) <-> Exists (fun x => exists e, step x m0 = Err e) xs.
+  Proof.
+    induction xs as [|x xs IH]; intros m; cbn [fold_res].
+    - split; [intros [e H]; discriminate | intros H; inversion H].
+    - destruct (step x m) as [m1|e1] eqn:E1.
+      + rewrite IH. split; [now right|]. intros H. inversion H as [? ? [e He]|]; subst; [|assumption].
+        apply (indep x m0 m) in He. congruence.
+      + split; [|eauto]. intros _. left. exists e1. now apply (indep x m m0).
+  Qed.
+
+  Lemma fold_res_ok_all xs : forall m m', fold_res step xs m = Ok m' ->
+    Forall (fun x => exists m1 m2, step x m1 = Ok m2) xs.
+  Proof.
+    induction xs as [|x xs IH]; intros m m'; cbn [fold_res]; [constructor|].
+    destruct (step x m) as [m1|e1] eqn:E1; [|discriminate].
+    intros H. constructor; [eauto | eapply IH; eassumption].
+  Qed.
+End FoldResP.
+
+Lemma load_spec_indep root imp single gdoc s m m' e :
+  load_spec root imp single gdoc s m = Err e -> load_spec root imp single gdoc s m' = Err e.
+Proof.
+  unfold load_spec. destruct (parse_docs (spec_docs single gdoc s) [] false) as [ps [|]|]; try (intros; assumption || discriminate).
+  destruct (vs_names s) as [|name [|]]; try (intros; assumption).
+  destruct (negb imp); [intros; assumption|].
+  destruct (resolve root ps); [discriminate | intros; assumption].
+Qed.
+
+Lemma load_decl_indep root imp d m m' e :
+  load_decl root imp d m = Err e -> load_decl root imp d m' = Err e.
+Proof.
+  unfold load_decl. destruct (is_multi (vd_specs d) && has_directive (vd_doc d)); [intros; assumption|].
+  apply fold_res_indep. intros x m1 m2 e1. apply load_spec_indep.
+Qed.
+
+Lemma load_file_indep root f m m' e :
+  load_file root f m = Err e -> load_file root f m' = Err e.
+Proof. unfold load_file. apply fold_res_indep. intros x m1 m2 e1. apply load_decl_indep. Qed.
+
+Lemma load_verdict_local root fs :
+  (exists e, load_directives root fs = Err e) <-> Exists (fun f => exists e, load_file root f [] = Err e) fs.
+Proof. unfold load_directives. apply fold_res_err_iff. intros x m m' e. apply load_file_indep. Qed.
+
+Lemma load_spec_ok_imp root imp single gdoc s m m' :
+  load_spec root imp single gdoc s m = Ok m' -> spec_uses single gdoc s = true -> imp = true.
+Proof.
+  unfold load_spec, spec_uses, has_directive.
+  destruct (parse_docs (spec_docs single gdoc s) [] false) as [ps [|]|]; try discriminate.
+  destruct (vs_names s) as [|name [|]]; try discriminate.
+  destruct imp; [reflexivity | discriminate].
+Qed.
+
+Lemma load_decl_ok_imp root imp d m m' :
+  load_decl root imp d m = Ok m' -> decl_uses d = true -> imp = true.
+Proof.
+  unfold load_decl, decl_uses.
+  destruct (is_multi (vd_specs d) && has_directive (vd_doc d)); [discriminate|]. cbn [orb].
+  intros H Hu. apply fold_res_ok_all in H. apply existsb_exists in Hu as (s & Hs & Hus).
+  rewrite Forall_forall in H. destruct (H _ Hs) as (m1 & m2 & Hok).
+  eapply load_spec_ok_imp; eassumption.
+Qed.
+
+Lemma load_file_ok_imp root f m m' :
+  load_file root f m = Ok m' -> file_uses f = true -> gf_embed f = true.
+Proof.
+  unfold load_file, file_uses. intros H Hu. apply fold_res_ok_all in H.
+  apply existsb_exists in Hu as (d & Hd & Hud). rewrite Forall_forall in H.
+  destruct (H _ Hd) as (m1 & m2 & Hok). eapply load_decl_ok_imp; eassumption.
+Qed.
+
+Lemma load_ok_imports root fs m : load_directives root fs = Ok m ->
+  Forall (fun f => file_uses f = true -> gf_embed f = true) fs.
+Proof.
+  unfold load_directives. intros H. apply fold_res_ok_all in H.
+  eapply Forall_impl; [|exact H]. intros f (m1 & m2 & Hok) Hu. eapply load_file_ok_imp; eassumption.
+Qed.
+
+Lemma load_noimport_rejects root fs f :
+  In f fs -> file_uses f = true -> gf_embed f = false -> exists e, load_directives root fs = Err e.
+Proof.
+  intros Hin Hu Hi. destruct (load_directives root fs) as [m|e] eqn:E; [|eauto].
+  apply load_ok_imports in E. rewrite Forall_forall in E. specialize (E _ Hin Hu). congruence.
+Qed.
+
+(* ---------- []byte variables: one store each ---------- *)
+Lemma bytes_stores_ids vars : forall next,
+  map snd (fst (bytes_stores vars next)) = map (fun k => next + N.of_nat k) (seq 0 (length vars)).
+Proof.
+  induction vars as [|[name data] vs IH]; intros next; [reflexivity|].
+  cbn [bytes_stores fst map snd length seq]. rewrite IH. f_equal; [lia|].
+  rewrite <- seq_shift, map_map. apply map_ext. intros k. lia.
+Qed.
+
+Lemma bytes_stores_distinct_l vars next : NoDup (map snd (fst (bytes_stores vars next))).
+Proof.
+  rewrite bytes_stores_ids. apply FinFun.Injective_map_NoDup; [|apply seq_NoDup].
+  intros a b H. lia.
+Qed.
+
+Lemma set_nth_other {A} (d : A) : forall n m x l, n <> m -> nth m (set_nth n x l) d = nth m l d.
+Proof.
+  induction n as [|n IH]; intros [|m] x [|y l] H; cbn; try reflexivity; try congruence.
+  apply IH. congruence.
+Qed.
+
+Lemma write_isolated_l heap i j k v : i <> j -> nth j (write_store heap i k v) [] = nth j heap [].
+Proof. intros H. unfold write_store. now apply set_nth_other. Qed.
